@@ -181,7 +181,7 @@ static int assemble_VEX(struct instr *instruc, unsigned char ptr[],
     vex &= ~W1;
   // WIG is true therefore we could switch between C4H and C5H
   else if ((vex & WIG) && !(vex & W1))
-    if (!(instruc->hex.rex & rex_b))
+    if (!(instruc->hex.rex & (rex_b | rex_x)))
       vex_first_byte = C5H;
   // Byte 0 if VEX prefix
   vex >>= 1;
